@@ -157,7 +157,9 @@ def rnd_definition(rng, apid_name="PKT_APID"):
                 if common is not None and rng.random() < 0.15:
                     entries.append(["c", "COMMON"])
             c = {"name": name, "entries": entries, "abstract": rng.random() < 0.3, "base": parent["name"],
-                 "criteria": rnd_criteria(rng, [apid_name, "SEQ_FLGS", "TYPE"] + small_ints, params), "inheritors": []}
+                 # now and then an unconditional child: a BaseContainer without RestrictionCriteria (always a valid inheritor)
+                 "criteria": [] if rng.random() < 0.12 else rnd_criteria(rng, [apid_name, "SEQ_FLGS", "TYPE"] + small_ints, params),
+                 "inheritors": []}
             containers.append(c)
             parent["inheritors"].append(name)
             grow(c, depth + 1, ints)
